@@ -175,6 +175,28 @@ def main():
             s = pin_bytes("u", bs)
             sx.require(sx.Iff(sx.utf8_valid(s), cpy(bs)), "symbolic UTF-8 reference equals CPython on %r" % bs)
         run(h, "utf8 term %r" % bs)
+    # ---- (c2) the codecs stand-in: utf_8_decode(b, "strict", final) on pinned bytes equals the C function (consumed count; outcome)
+    import codecs
+    from bvsym import shims
+    for bs in [b"abc", b"ab\xe2\x82", b"ab\xe2", b"\xf0\x9f\x98", b"\xc3\xa9", b"\xe2\x82\xac", b"a\xff", b"\xed\xa0", b"\xed\xa0\x80", b"\xf4\x90", b"", b"\x80", b"ab\xc3"]:
+        for final in (False, True):
+            def h(bs=bs, final=final):
+                s = pin_bytes("u", bs) if bs else bs
+                try:
+                    nat = codecs.utf_8_decode(bs, "strict", final)
+                except UnicodeDecodeError:
+                    nat = "error"
+                try:
+                    got = shims.CodecsShim.utf_8_decode(s, "strict", final)
+                except UnicodeDecodeError:
+                    got = "error"
+                if nat == "error" or got == "error":
+                    sx.require(nat == got, "utf_8_decode(%r, final=%s): error exactly when the C function errors" % (bs, final))
+                else:
+                    sx.require(got[1] == nat[1], "utf_8_decode(%r, final=%s): consumed count" % (bs, final))
+                    if all(c < 128 for c in bs[:nat[1]]):
+                        sx.require(got[0] == nat[0], "utf_8_decode(%r): decoded ASCII text" % bs)
+            run(h, "codecs.utf_8_decode %r final=%s" % (bs, final))
     # ---- (d) base64 model
     from harness.c10 import b64_model
     for i in range(20):
